@@ -67,7 +67,12 @@ impl FastCompiler {
     }
 
     pub fn build_config(&self, file: &str, opt: OptLevel) -> BuildConfig {
-        BuildConfig::root_from_file_name_and_manifest_path(self.dir.join("src").join(file), self.dir.clone(), BuildTarget::Fuel, DbgGeneration::None).with_optimization_level(opt)
+        let cfg = BuildConfig::root_from_file_name_and_manifest_path(self.dir.join("src").join(file), self.dir.clone(), BuildTarget::Fuel, DbgGeneration::None).with_optimization_level(opt);
+        if std::env::var("VP_PRINT_IR").is_ok() {
+            // development aid: print the IR after every modifying pass
+            return cfg.with_print_ir(sway_core::IrCli { initial: true, r#final: true, modified_only: true, print_metadata: false, passes: vec!["all".to_string()] });
+        }
+        cfg
     }
 
     fn fresh_namespace(&mut self, name: &str) -> Package {
@@ -87,8 +92,12 @@ impl FastCompiler {
         let _ = std::fs::write(&path, src);
         let cfg = self.build_config(&file, opt);
         let handler = Handler::default();
-        let ns = self.fresh_namespace("vp_case");
-        let r = compile_to_ast(&handler, &self.engines, src.into(), ns, Some(&cfg), "vp_case", None, self.exp);
+        // A unique package name per compilation: the engines are shared by the programs of one thread, and forc never
+        // builds two different packages of the same name with one Engines value (type and monomorphisation caches are
+        // keyed by call paths such as `vp_case::S0`).
+        let name = format!("vp_case_{}", self.compiled);
+        let ns = self.fresh_namespace(&name);
+        let r = compile_to_ast(&handler, &self.engines, src.into(), ns, Some(&cfg), &name, None, self.exp);
         let _ = std::fs::remove_file(&path);
         (r.map_err(|_| ()), handler, cfg)
     }
